@@ -524,6 +524,15 @@ impl World {
         if to.is_empty() {
             return Err("empty recipient".into());
         }
+        // fault 4: the bank refuses payments to the configured treasury (a blocked / module account, sends of
+        // the denom disabled): one message of a multi-message response fails
+        if self.ibc.reply_fault == 4 && from == contract_addr() {
+            if let Some(t) = self.config().protocol_fee_config.treasury_address {
+                if t.as_str() == to {
+                    return Err("bank: the recipient is a blocked address".into());
+                }
+            }
+        }
         if amount == 0 {
             // Assumption (DESIGN O1): zero-amount coins are accepted and counted.
             self.zero_sends += 1;
